@@ -10,6 +10,7 @@
 From Coq Require Import List NArith ZArith Bool.
 From Mila Require Import Lib.Bytes Lib.Machine Model.BinArchive Model.BinFormat Model.Pack
   Proofs.BinFormatSpec Proofs.BinTotal Proofs.PackTotal.
+From Mila Require Model.BinStreams Model.TextMap Model.TextFormat Model.Arc Proofs.TextTotal Proofs.ArcTotal Proofs.TextArcTotal.
 Import ListNotations.
 Local Open Scope N_scope.
 
@@ -54,3 +55,55 @@ Example C05_example_F6 :
   let f := enc LE 4 0 ++ enc LE 4 4294967280 ++ enc LE 4 4 ++ enc LE 4 0 ++ zeros 48 in
   BinFormat.from_bytes LE f = Err ETooSmall /\ resize_request LE f = None.
 Proof. vm_compute. split; reflexivity. Qed.
+
+(* ---------------------------------------------------------------- text archive (src/text_archive.rs, src/encoded_strings.rs) *)
+(* additional header line (Require WITHOUT Import: TextFormat / Arc also define from_bytes / serialize, TextTotal defines not_panic):
+From Mila Require Model.BinStreams Model.TextMap Model.TextFormat Model.Arc Proofs.TextTotal Proofs.ArcTotal Proofs.TextArcTotal.  *)
+
+(* TextArchive::from_bytes, every byte string, both encodings, both endiannesses: never a panic *)
+Theorem C05_text_from_bytes_no_panic : forall fmt e f k, TextFormat.from_bytes fmt e f <> Panic k.
+Proof. exact TextArcTotal.text_from_bytes_never_panics. Qed.
+(* the model's fuel (S |data|) is never exhausted: the real loops terminate *)
+Theorem C05_text_from_bytes_fuel_suffices : forall fmt e f, TextFormat.from_bytes fmt e f <> Err EOutOfFuel.
+Proof. exact TextArcTotal.text_from_bytes_fuel_suffices. Qed.
+(* the walk moves at least 4 bytes per message and stays 4-aligned: at most |data| / 4 + 1 iterations *)
+Theorem C05_text_walk_step_advances : forall fmt a sfuel pos msg p,
+  pos mod 4 = 0 -> TextFormat.r_read_message fmt sfuel a pos = (Ok msg, p) -> pos + 4 <= p /\ p mod 4 = 0.
+Proof. exact TextTotal.text_walk_step_advances. Qed.
+(* TextArchive::from_archive on EVERY archive value (also ones no file produces) *)
+Theorem C05_text_from_archive_no_panic : forall fmt a k, TextFormat.from_archive fmt a <> Panic k.
+Proof. exact TextTotal.text_from_archive_no_panic. Qed.
+Theorem C05_text_from_archive_fuel_suffices : forall fmt a, TextFormat.from_archive fmt a <> Err EOutOfFuel.
+Proof. exact TextTotal.text_from_archive_fuel_never_exhausted. Qed.
+(* anything accepted re-serializes (to Ok, so without a panic), either arithmetic mode, either endianness *)
+Theorem C05_text_reserialize_no_panic : forall fmt e f t, TextFormat.from_bytes fmt e f = Ok t ->
+  forall m e', (exists f', TextFormat.serialize m fmt e' t = Ok f') /\ forall k, TextFormat.serialize m fmt e' t <> Panic k.
+Proof. exact TextArcTotal.text_accepted_reserializes. Qed.
+(* the writer is total on every text archive value *)
+Theorem C05_text_serialize_total : forall m fmt e t, exists f, TextFormat.serialize m fmt e t = Ok f.
+Proof. exact TextTotal.text_serialize_ok. Qed.
+
+(* ---------------------------------------------------------------- 3DS arc (src/arc.rs) *)
+(* arc::from_bytes, every byte string, both arithmetic modes (repaired code bc4a741) *)
+Theorem C05_arc_from_bytes_no_panic : forall m f k, Arc.arc_from_bytes m f <> Panic k.
+Proof. exact TextArcTotal.arc_from_bytes_never_panics. Qed.
+Theorem C05_arc_from_bytes_fuel_suffices : forall m f, Arc.arc_from_bytes m f <> Err EOutOfFuel.
+Proof. exact TextArcTotal.arc_from_bytes_fuel_suffices. Qed.
+Theorem C05_arc_from_archive_no_panic : forall m a k, Arc.arc_from_archive m a <> Panic k.
+Proof. exact ArcTotal.arc_from_archive_no_panic. Qed.
+Theorem C05_arc_from_archive_fuel_suffices : forall m a, Arc.arc_from_archive m a <> Err EOutOfFuel.
+Proof. exact ArcTotal.arc_from_archive_fuel_never_exhausted. Qed.
+(* no buffer is sized by a record's size field: a body is pushed byte by byte while bytes exist, so it is never longer
+   than the data region, which itself is at most |file| - 32 *)
+Theorem C05_arc_body_bounded : forall f a address sz b,
+  BinFormat.from_bytes LE f = Ok a -> fst (BinStreams.r_read_bytes a address sz) = Ok b -> lenN b + 32 <= lenN f.
+Proof. exact TextArcTotal.arc_bodies_bounded_by_file. Qed.
+(* the repaired code has no profile-dependent arithmetic left *)
+Theorem C05_arc_mode_independent : forall a, Arc.arc_from_archive Checked a = Arc.arc_from_archive Wrapping a.
+Proof. exact ArcTotal.arc_mode_independent. Qed.
+(* finding F9 on the model of the code before the repair (padded header, offset 0xFFFFFFF0): panic in the checked build,
+   a read from a wrapped address in the wrapping build; the repaired code rejects the record in both *)
+Example C05_example_F9 :
+  fst (Arc.read_entry_unrepaired Checked ArcTotal.f9_archive 0x64 Arc.HEADER_PAD) = Panic POverflow /\
+  (forall m, Arc.arc_from_archive m ArcTotal.f9_archive = Err EOob).
+Proof. split; [exact ArcTotal.f9_unrepaired_checked_panics | exact ArcTotal.f9_repaired_rejects]. Qed.
